@@ -257,6 +257,18 @@ func (g *g2) inject(defs *[]SDef) string {
 				c := cs[r.Intn(len(cs))]
 				c.K, c.Name = KName, first
 			}
+			// half of the time a tail of 1..3 pure aliases leads into the cycle without being
+			// part of it (declared before or after its members: the order is shuffled later)
+			if r.Intn(2) == 0 {
+				t := 1 + r.Intn(3)
+				for j := 0; j < t; j++ {
+					next := fmt.Sprintf("Tl%d", j+1)
+					if j == t-1 {
+						next = fmt.Sprintf("Cyc%d", r.Intn(k))
+					}
+					*defs = append(*defs, SDef{Name: fmt.Sprintf("Tl%d", j), Body: &SNode{K: KName, Name: next}})
+				}
+			}
 			return fmt.Sprintf("alias-cycle-%d", k)
 		case 3:
 			ds[i].Ann = []string{"linn", "x", "shared", "lim", "u"}[r.Intn(5)]
